@@ -74,7 +74,9 @@ def gen(rng, index, tier):
         # a BIG payload (more than 1 MiB once decoded; highly compressible, so the version-3 file itself is small):
         # decoders that work in bounded steps / chunks behave differently beyond such sizes
         w = 64
-        nwords = rng.choice([132000, 140000, 150000])
+        # (131072 / 262144 / 1310720 words are exactly 1, 2 and 10 MiB of decoded data: a decoder that works in
+        #  steps meets the end of the stream exactly at a step boundary)
+        nwords = rng.choice([132000, 140000, 150000, 131072, 262144, 1310720 if rng.random() < 0.5 else 131072])
         calls = [['pdata', nwords, rng.choice([1, 5, 64]), rng.getrandbits(16)],
                  ['seg', 0, nwords + rng.choice([0, 2, 1000]), 0, nwords]]
         return {'w': w, 'version': rng.choice([3, 3, 3, 0, 1, 2]), 'preset': rng.choice([0, 6]), 'calls': calls,
@@ -337,6 +339,12 @@ def run(case):
     n = len(F)
     h = parse_fields(F)
     v0, d0, t0, _ = open_variant(F)
+    if v0 == 'wrong-exception':
+        # (that the intact file is refused is a round-trip matter, C06; that opening it raises a FOREIGN exception is not)
+        return {'violations': [{'clause': 'totality', 'config': None, 'config_name': 'intact-file', 'variant': 'intact-file',
+                                'expected': 'Reader or FlipJumpReadFjmException', 'observed': d0}],
+                'probes': {}, 'faults': {}, 'states': [], 'steps': 1, 'nontrivial': True,
+                'digest': kernel.digest_of([case, 'intact-wrong-exception'])}
     if v0 != 'accept':
         # the intact file does not load: a round-trip matter (C06), not judged here
         return {'violations': [], 'probes': {'baseline_not_loadable': 1}, 'faults': {}, 'states': [], 'steps': 0,
@@ -358,6 +366,9 @@ def run(case):
         cur[1] += 1 if fired else 0
 
     time_bound = 1.0 + n / 20000.0
+    n_words_big = case['calls'][0][1] if case.get('big') else 0
+    if n_words_big > 300000:
+        time_bound += n_words_big / 100000.0        # (the decoded size, not the compressed one, is what costs)
 
     # ---- 1. every strict prefix (crash / full disk / kill at byte b)
     if n <= 4096 and not case.get('big'):
@@ -365,6 +376,8 @@ def run(case):
     elif case.get('big') and n <= 16384:
         # every open decodes more than a megabyte: the ends, the write boundaries and a sample
         cs = set(range(0, 12)) | set(range(max(0, n - 48), n)) | {rng.randrange(n) for _ in range(40)}
+        if n_words_big > 300000:
+            cs = set(range(max(0, n - 6), n))           # (every open decodes ten megabytes)
         cs |= {int(n * f) for f in (0.1, 0.25, 0.5, 0.75, 0.9, 0.99)}
         cuts = sorted(c for c in cs if 0 <= c < n)
     else:
@@ -435,6 +448,37 @@ def run(case):
             viol('allocation', name, f'peak <= {mem_bound} bytes (40 MB for the lzma decoder + linear in file size)', f'{peak} bytes')
         if dt > time_bound * 4 and open_variant(b, real=True)[2] > time_bound * 4:
             viol('time', name, f'<= {time_bound * 4:.2f}s', f'{dt:.2f}s')
+    # ---- 3b. coordinated damage of the segment table (several entries at once - no writer produces these): two
+    #          non-empty entries made to overlap, with an EMPTY entry (or a copy of an entry) placed before, between or
+    #          after them in the table; a table listing the same segment twice
+    t_off = h['table_off']
+    entries = [list(struct.unpack_from('<QQQQ', F, t_off + 32 * i)) for i in range(h['nseg'])] if t_off + 32 * h['nseg'] <= n else []
+    nonempty = [i for i, e in enumerate(entries) if e[1] >= 2]
+    if nonempty:
+        def rebuild(table):
+            head = bytearray(F[:t_off])
+            struct.pack_into('<Q', head, 12, len(table))
+            return bytes(head) + b''.join(struct.pack('<QQQQ', *e) for e in table) + F[t_off + 32 * h['nseg']:]
+        i = rng.choice(nonempty)
+        a = entries[i]
+        variants = []
+        over = [a[0] + rng.choice([0, 1, 2, a[1] - 1]), max(2, a[1]), a[2], a[3]]     # overlaps entry i
+        for zstart in (a[0], a[0] + 1, over[0], over[0] + 1):
+            z = [zstart, 0, 0, 0]                                                      # an empty entry
+            for order in ([z, over], [over, z]):
+                pos = rng.randrange(len(entries) + 1)
+                variants.append(('empty+overlap', entries[:pos] + order + entries[pos:]))
+            variants.append(('empty-between', entries[:i + 1] + [z, over] + entries[i + 1:]))
+        variants.append(('duplicate-entry', entries + [list(a)]))
+        variants.append(('only-empty-extra', entries + [[a[0] + 1, 0, 0, 0]]))
+        rng.shuffle(variants)
+        for nm, table in variants[:6]:
+            b = rebuild(table)
+            verdict, detail, dt, _ = open_variant(b, real=True)
+            evals += 1
+            count('table-multi-entry')
+            states.add(f"v{case['version']}|w{case['w']}|multi:{nm}|{verdict}")
+            _judge_damaged(b, verdict, detail, 'table:' + nm, viol)
     # ---- 4. payload damage
     pay_off = h['table_off'] + 32 * h['nseg']
     if n > pay_off:
